@@ -36,7 +36,7 @@ Judge(e) ==
         : k \in 1..Len(e.reqs), hc \in HostNames}
 
 TraceNext == /\ l <= Len(Trace) /\ l' = l + 1 /\ bad' = bad \cup Judge(Trace[l]) /\ UNCHANGED cs
-TraceInit == cs = [url |-> "none", oauth |-> "none", placement |-> "backend", ptype |-> "exact", lua |-> TRUE, range |-> "default", open |-> "after", cors |-> FALSE, pubauth |-> FALSE] /\ l = 1 /\ bad = {}
+TraceInit == cs = [url |-> "none", oauth |-> "none", placement |-> "backend", ptype |-> "exact", lua |-> TRUE, range |-> "default", open |-> "after", cors |-> FALSE, pubauth |-> FALSE, src |-> "ingress", oprefix |-> "default", elder |-> "none"] /\ l = 1 /\ bad = {}
 TraceSpec == TraceInit /\ [][TraceNext]_<<cs, l, bad>>
 Result == l = Len(Trace) + 1 => PrintT(<<"RESULT", ToJson([n |-> l - 1, bad |-> bad])>>)
 =============================================================================
